@@ -172,6 +172,17 @@ impl Fp12 {
     }
 }
 
+#[cfg(gm_rs_verif)]
+impl Fp12 {
+    pub(crate) fn verif_frobenius(&self) -> Self {
+        self.fp12_frobenius()
+    }
+
+    pub(crate) fn verif_frobenius3(&self) -> Self {
+        self.fp12_frobenius3()
+    }
+}
+
 impl PartialEq for Fp12 {
     fn eq(&self, other: &Self) -> bool {
         self.c0.eq(&other.c0) && self.c1.eq(&other.c1) && self.c2.eq(&other.c2)
